@@ -116,6 +116,8 @@ func vfC11Run(run *vfkit.Run, cs *vfC11Case) {
 					pc.Send("<failed xmlns='" + vfNSSM + "'><unexpected-request xmlns='urn:ietf:params:xml:ns:xmpp-stanzas'/></failed>")
 				case "failed-item":
 					pc.Send("<failed xmlns='" + vfNSSM + "' h='0'><item-not-found xmlns='urn:ietf:params:xml:ns:xmpp-stanzas'/></failed>")
+				case "stream-error": // the server is going down: says so, in a well-formed, decodable way, and ends the stream
+					pc.Send("<stream:error><system-shutdown xmlns='urn:ietf:params:xml:ns:xmpp-streams'/></stream:error></stream:stream>")
 				case "unexpected":
 					pc.Send("<message from='a@b'><body>eh?</body></message>")
 				case "malformed":
@@ -442,7 +444,7 @@ func TestVf_C11(t *testing.T) {
 		vfC11Run(run, &rc)
 		return
 	}
-	replies := []string{"resumed", "resumed-other", "resumed-noid", "resumed-emptyid", "failed", "failed-cond", "failed-item", "unexpected", "malformed", "close"}
+	replies := []string{"resumed", "resumed-other", "resumed-noid", "resumed-emptyid", "failed", "failed-cond", "failed-item", "unexpected", "stream-error", "malformed", "close"}
 	var cases []*vfC11Case
 	for _, er := range []string{"true", "false", ""} {
 		first := vfC11Conn{SMAdv: true, EnableRes: er, Stanzas: 2}
